@@ -2,8 +2,9 @@ package main
 
 import (
 	"fmt"
-	"sort"
+	"go/ast"
 	"go/types"
+	"sort"
 	"strconv"
 	"strings"
 )
@@ -181,6 +182,24 @@ func (e *Eng) evalSpec(st *State, x *SExpr, env map[string]*Val, old map[string]
 					return scalar(fmt.Sprintf("(and ((_ is mkref) %s) (islocal (iref %s)))", a.T, a.T), "Bool", nil)
 				}
 				return scalar(fmt.Sprintf("(or (= %s 0) (islocal %s))", t, t), "Bool", nil)
+			case "litOrd":
+				// litOrd(x): x is known to be the n-th function literal (source order, 1-based) of the enclosing
+				// declaration; 0 when x is not known to be one of its literals
+				a := e.evalSpec(st, x.Args[1], env, old)
+				n := 0
+				if a != nil && a.Lit != nil && e.fn != nil && e.fn.Body != nil {
+					k := 0
+					ast.Inspect(e.fn.Body, func(nd ast.Node) bool {
+						if fl, ok := nd.(*ast.FuncLit); ok {
+							k++
+							if fl == a.Lit {
+								n = k
+							}
+						}
+						return true
+					})
+				}
+				return scalar(strconv.Itoa(n), "Int", nil)
 			case "implements":
 				a := e.evalSpec(st, x.Args[1], env, old)
 				tn, _ := strconv.Unquote(x.Args[2].Name)
